@@ -1,5 +1,5 @@
 ENGINES = [
-    {'name': 'E1-enum', 'path': 'mc/engine_enum.py', 'serves_properties': ['C01', 'C02', 'C04', 'C05', 'C06', 'C09', 'C12', 'C13', 'C19'],
+    {'name': 'E1-enum', 'path': 'mc/engine_enum.py', 'serves_properties': ['C01', 'C02', 'C04', 'C05', 'C06', 'C09', 'C12', 'C13', 'C14', 'C19'],
      'kind_free_text': 'sharded exhaustive enumeration of a finite input/configuration space of the real code against a reference model'},
     {'name': 'E2-bfs', 'path': 'mc/engine_bfs.py', 'serves_properties': ['C03', 'C04', 'C05', 'C15', 'C16'],
      'kind_free_text': 'explicit-state breadth-first search over live implementation objects (state = replayable operation history, canonicalised from the complete vars() of the objects), level-parallel'},
@@ -74,3 +74,9 @@ CHECKS['C13'] = dict(
     technique='exhaustive enumeration of small files against an exact rational tempo-map integral, and deviation-bounded enumeration of consumer-delay / sleep-overshoot patterns for play() on a harness-owned clock',
     text='Every file over 5 ticks_per_beat values and tracks of bounded length over {note, three set_tempo values, text} x three deltas is iterated and measured; cumulative times are compared with the exact Fraction integral of the tempo map. play() runs on a fake clock (now= and the module time.sleep replaced) under every set of <= 2 deviations from the default environment (consumer delays, sleep overshoots): never early, no drift, sleeps end exactly on the schedule, meta filter. The tick/second grid is enumerated completely for the listed values.',
     note='Float comparison tolerance 1e-9 relative; track lengths bounded (3/2 quick, 4/2 thorough); deviation bound 2.')
+
+CHECKS['C14'] = dict(
+    engine='E1-enum', category='exploration', design_ref='DESIGN.md 5/C14',
+    technique='exhaustive enumeration of messages and containers through str/dict/repr round trips, and of text lines and line streams over a word alphabet against a reference grammar',
+    text='Every boundary combination of attribute values of every message type (the full 1.33M space in thorough) x 10 time values goes through from_str(str(m)), from_dict(m.dict()) and eval(repr(m)); meta messages, frozen variants, tracks of length 0..4 and files with 0..2 tracks through eval(repr(x)). Every line of up to 3 words over a 10 x 36 word alphabet is parsed and judged by a reference grammar written from docs/messages/serializing.rst (valid: that message; invalid: exactly ValueError); every stream of up to 3 (4) lines over 16 line kinds must yield (msg, None) / (None, "line n: ...") in order without aborting.',
+    note='Numeric literals restricted to plain decimal forms; bool/inf/nan times outside the statement.')
